@@ -65,7 +65,7 @@ SPEC = {
         "C14_derived_set_concurrent", "C14_subtract_concurrent", "C14_skeleton_readableSet_SubtractReactive", "C14_counter_concurrent", "C14_sorted_set_concurrent",
         "C14_sorted_set", "C14_sorted_set_spec", "C14_sorted_set_members", "C14_sorted_set_absent_weight",
         "C14_eviction", "C14_eviction_unique", "C14_eviction_pre", "C14_eviction_concurrent", "C14_eviction_concurrent_safety", "C14_skeleton_ShrinkingMap_GetOrCreate",
-        "C14_compose_quiescent", "C14_compose_derived_set", "C14_compose_subtract", "C14_compose_unique", "C14_compose_late_publication_witness",
+        "C14_compose_quiescent", "C14_compose_derived_set", "C14_compose_subtract", "C14_compose_unique", "C14_compose_unique_general", "C14_derived_var_replay_is_run", "C14_compose_late_publication_witness",
         "C14_eviction_refines", "C14_eviction_locked", "C14_eviction_test_outside_lock_witness",
         "C14_skeleton_set_Add", "C14_skeleton_set_AddAll", "C14_skeleton_set_Delete", "C14_skeleton_set_DeleteAll", "C14_skeleton_set_Replace", "C14_skeleton_set_replace",
         "C14_eviction_fire", "C14_eviction_old_negative_witness", "C14_eviction_old_fractional_witness", "C14_eviction_old_loop_witness", "C14_eviction_old_loop_below_top",
